@@ -259,6 +259,9 @@ type Engine struct {
 	phiBusy   map[*ssa.Phi]bool
 	Budget    int
 	Exhausted bool
+	// Resolve optionally maps an interface invoke to the single in-scope method that
+	// implements it (the receiver becomes the first argument).
+	Resolve func(c *ssa.CallCommon) *ssa.Function
 }
 
 // NewEngine creates an engine over p.
@@ -694,6 +697,9 @@ func (e *Engine) Run(rule Rule, root *ssa.Function, sigma0 string) {
 // place, generic instances (mapped to their origin body).
 func (e *Engine) StaticCallee(fc *FrameCtx, c *ssa.CallCommon) (*ssa.Function, *ssa.MakeClosure) {
 	if c.IsInvoke() {
+		if e.Resolve != nil {
+			return e.Resolve(c), nil
+		}
 		return nil, nil
 	}
 	v := c.Value
@@ -820,16 +826,27 @@ func (e *Engine) explore(st *State) {
 			// caller (`cont := helper(...)`; `if !cont { return }`)
 			if call, ok := fc.site.(*ssa.Call); ok && fc.parent != nil && !t.deferred {
 				for i, rv := range in.Results {
-					k, ok := rv.(*ssa.Const)
-					if !ok || k.Value == nil || !isBoolConst(k) {
-						continue
-					}
 					key := "v:" + fc.parent.id + ":" + call.Name()
 					if len(in.Results) > 1 {
 						key += fmt.Sprintf("#%d", i)
 					}
-					if e.rule.PredOK(key) {
-						st.pi[key] = k.Value.ExactString() == "true"
+					k, isConst := rv.(*ssa.Const)
+					switch {
+					case isConst && k.Value != nil && isBoolConst(k):
+						if e.rule.PredOK(key) {
+							st.pi[key] = k.Value.ExactString() == "true"
+						}
+					case isConst && k.Value == nil && !isBasic(k.Type()):
+						// the callee returned nil (e.g. a nil error)
+						nk := "(" + minStr("nil", key) + "==" + maxStr("nil", key) + ")"
+						if e.rule.PredOK(nk) {
+							st.pi[nk] = true
+						}
+					case e.neverNil(fc, rv, 0):
+						nk := "(" + minStr("nil", key) + "==" + maxStr("nil", key) + ")"
+						if e.rule.PredOK(nk) {
+							st.pi[nk] = false
+						}
 					}
 				}
 			}
@@ -876,7 +893,7 @@ func (e *Engine) explore(st *State) {
 			callee, mc := e.StaticCallee(fc, in.Common())
 			if callee != nil && e.P.InScope(callee) && len(callee.Blocks) > 0 && e.rule.Inline(callee) && !fc.onStack(callee) {
 				t.idx++ // continuation
-				nfc := &FrameCtx{id: fc.id + ">" + in.(ssa.Value).Name(), fn: callee, parent: fc, args: in.Common().Args, closure: mc, depth: fc.depth + 1, site: in}
+				nfc := &FrameCtx{id: fc.id + ">" + in.(ssa.Value).Name(), fn: callee, parent: fc, args: callArgs(in.Common()), closure: mc, depth: fc.depth + 1, site: in}
 				st.stack = append(st.stack, ctl{fc: nfc, blk: callee.Blocks[0]})
 				e.Inlined[callee] = true
 				e.rule.OnEnter(e, st, nfc)
@@ -889,6 +906,29 @@ func (e *Engine) explore(st *State) {
 			continue
 		}
 	}
+}
+
+// callArgs returns the values bound to the callee's parameters (receiver first for
+// interface invokes resolved to a method).
+func callArgs(c *ssa.CallCommon) []ssa.Value {
+	if c.IsInvoke() {
+		return append([]ssa.Value{c.Value}, c.Args...)
+	}
+	return c.Args
+}
+
+func minStr(a, b string) string {
+	if a < b {
+		return a
+	}
+	return b
+}
+
+func maxStr(a, b string) string {
+	if a < b {
+		return b
+	}
+	return a
 }
 
 func isBoolConst(k *ssa.Const) bool {
